@@ -77,6 +77,7 @@ def run_ring_property(pid, props_file, gen, rule, extra_trusted=(), assumptions=
                                "rerun": f"cd /verif && python3 bin/check.py {pid} --replay <this file>"})
             elif rep_fail is None:
                 rep_fail = (tr, why)
+    slots_phase(run, pid)
     extra_dist = extra_phase(run) if extra_phase else None
     if rep_fail is not None and not run.violations and val_fail is None:
         tr, why = rep_fail
@@ -115,6 +116,40 @@ def run_ring_property(pid, props_file, gen, rule, extra_trusted=(), assumptions=
                assumptions=list(assumptions))
 
 
+def slots_phase(run, pid):
+    """the ring buffer's slot mapping driven directly (harness/ds family ringslots, plain build): sequence s addresses slot s mod N;
+    a read returns the value last written through any sequence congruent to s modulo N. Rings of 2 .. 262 144 slots (the explored
+    pipelines use rings up to 128 slots; an index narrower than usize only shows above 65 536 slots)."""
+    if pid not in ("C04", "C05", "C13"): return
+    b, log = cargo_build("ds")
+    if not b:
+        fatal(run, "cargo build of harness/ds against /repo failed", log)
+    rng = run.rng
+    lines = []; want = []
+    for N in ([2, 8, 64, 1024, 65536, 131072, 262144] if run.thorough else [8, 131072, rng.choice([64, 1024, 65536, 262144])]):
+        slots = {}; ops = []; exp = [N]
+        base = [rng.randrange(0, 4 * N) for _ in range(6)]
+        for _ in range(40):
+            s0 = rng.choice(base) + rng.choice([0, 0, N, 2 * N, 65536, 256, 1, 3 * N]) if rng.random() < 0.8 else rng.randrange(0, 2**40)
+            if rng.random() < 0.5:
+                v = rng.randrange(1, 2**40); ops += [0, s0, v]; slots[s0 % N] = v
+            else:
+                ops += [rng.choice([1, 2]), s0, 0]; exp.append(slots.get(s0 % N, 0))
+        lines.append(f"ringslots {N} " + fmt(ops)); want.append(exp)
+    rc, outs, err = run_lines(b, lines, line_timeout=60)
+    n_ok = 0
+    for k, (ln, w) in enumerate(zip(lines, want)):
+        run.cov["evaluations"] += 1
+        o = outs[k] if k < len(outs) else "<no answer>"
+        if o.split() == [str(x) for x in w]:
+            n_ok += 1; continue
+        run.violation({"kind": "property-oracle-failed-on-implementation", "what": f"ring of {ln.split()[1]} slots: a read through sequence s does not return the value last written to slot s mod N "
+                       "(slots are shared between sequences that are not congruent modulo the ring size, or a slot is lost)", "harness_line": ln, "expected": fmt(w), "got": o, "slots": True,
+                       "rerun": f"cd /verif && python3 bin/check.py {pid} --replay <this file>"})
+        break
+    run.cov["ring_slot_mapping"] = {"rings": [int(l.split()[1]) for l in lines], "agree": n_ok}
+
+
 def validate_trace(tr):
     """trace validation against the extracted model; None = not applicable"""
     try:
@@ -127,6 +162,13 @@ def validate_trace(tr):
 def replay_ring(pid):
     def replay(path):
         d = json.load(open(path))
+        if d.get("slots"):
+            b, log = cargo_build("ds")
+            rc, outs, err = run_lines(b, [d["harness_line"]], line_timeout=60)
+            got = outs[0] if outs else "<no answer>"
+            print("expected:", d["expected"][:200]); print("got     :", got[:200])
+            bad = got.split() != d["expected"].split()
+            print("REPRODUCED" if bad else "not reproduced"); return 1 if bad else 0
         if "config" not in d:
             print(json.dumps(d, indent=1)[:3000]); return 1
         run = Run(pid); binary = ring_binary(run)
